@@ -38,6 +38,7 @@ type c08Case struct {
 	Level   int      `json:"retry_level"`
 	Max     int      `json:"retry_max"`
 	Cross   int      `json:"cross_retry"`
+	Frontend string  `json:"frontend"` // h1 | h2 | spdy
 	Shape   string   `json:"shape"`  // request shape
 	Faults  []string `json:"faults"` // fault for the k-th arrival at a live backend
 }
@@ -144,7 +145,8 @@ func c08(r *vkit.Run) {
 			}
 		}
 	}
-	srv, err := e2e.Start(&e2e.Options{Clusters: clusters})
+	srv, err := e2e.Start(&e2e.Options{Clusters: clusters, HTTPS: true,
+		TLSRule: `{"Version":"1","DefaultNextProtos":["h2","spdy/3.1","http/1.1"],"Config":{}}`})
 	if err != nil {
 		r.Inconclusive("server start: " + err.Error())
 		return
@@ -170,8 +172,18 @@ func c08(r *vkit.Run) {
 	var cases []*c08Case
 	n := 0
 	add := func(st setting, shape string, faults []string) {
+		fe := "h1"
+		// every 4th case goes through the HTTP/2 frontend, every 4th through SPDY (shapes that exist there)
+		if shape != "POST-expect" && shape != "POST-chunked" && shape != "GET-cl0" {
+			switch n % 4 {
+			case 1:
+				fe = "h2"
+			case 2:
+				fe = "spdy"
+			}
+		}
 		cases = append(cases, &c08Case{ID: fmt.Sprintf("q%d", n), Cluster: fmt.Sprintf("l%dm%dx%d", st.level, st.max, st.cross),
-			Level: st.level, Max: st.max, Cross: st.cross, Shape: shape, Faults: faults})
+			Level: st.level, Max: st.max, Cross: st.cross, Shape: shape, Faults: faults, Frontend: fe})
 		n++
 	}
 	if r.Replay != "" {
@@ -234,6 +246,31 @@ func c08(r *vkit.Run) {
 	status := make([]string, len(cases))
 	vkit.Parallel(len(cases), 48, func(i int) {
 		c := cases[i]
+		if c.Frontend == "h2" || c.Frontend == "spdy" {
+			method := strings.SplitN(c.Shape, "-", 2)[0]
+			body := ""
+			if c.hasBody() {
+				body = "body-of-" + c.ID
+			}
+			host := c.Cluster + ".c08.test"
+			var res *e2e.MiniResult
+			if c.Frontend == "h2" {
+				res = e2e.H2Once(srv.HTTPSAddr, []e2e.HF{{Name: ":method", Value: method}, {Name: ":scheme", Value: "https"}, {Name: ":authority", Value: host}, {Name: ":path", Value: "/c08/" + c.ID},
+					{Name: "x-id", Value: c.ID}, {Name: "x-faults", Value: strings.Join(c.Faults, ",")}}, []byte(body), 60*time.Second)
+			} else {
+				res = e2e.SpdyOnce(srv.HTTPSAddr, []e2e.HF{{Name: ":method", Value: method}, {Name: ":scheme", Value: "https"}, {Name: ":host", Value: host}, {Name: ":path", Value: "/c08/" + c.ID}, {Name: ":version", Value: "HTTP/1.1"},
+					{Name: "x-id", Value: c.ID}, {Name: "x-faults", Value: strings.Join(c.Faults, ",")}}, []byte(body), 60*time.Second)
+			}
+			st := res.Status
+			if len(st) >= 3 {
+				st = st[:3]
+			}
+			if st == "" {
+				st = "err"
+			}
+			status[i] = st
+			return
+		}
 		conn, err := net.DialTimeout("tcp", srv.HTTPAddr, 5*time.Second)
 		if err != nil {
 			status[i] = "dial"
@@ -272,6 +309,7 @@ func c08(r *vkit.Run) {
 		at := attempts[c.ID]
 		arr := arrivals[c.ID]
 		r.Count("client_status_"+status[i], 1)
+		r.Count("frontend_"+c.Frontend, 1)
 		failed := 0
 		for j, a := range at {
 			if j < len(at)-1 {
@@ -281,7 +319,7 @@ func c08(r *vkit.Run) {
 			}
 			_ = a
 		}
-		key := fmt.Sprintf("%s|%s|%v", c.Cluster, c.Shape, c.Faults)
+		key := fmt.Sprintf("%s|%s|%s|%v", c.Frontend, c.Cluster, c.Shape, c.Faults)
 		r.CaseS(key, failed > 0)
 		r.Count("attempts_total", int64(len(at)))
 		w := map[string]interface{}{"case": c, "attempts": at, "arrivals_at_live_backends": arr, "client_status": status[i], "request": string(c.bytes())}
@@ -330,12 +368,12 @@ func c08(r *vkit.Run) {
 				r.Violation("resend:get-retried-at-retry-level-0:"+f, fmt.Sprintf("attempt %d reached a live backend (fault %s) and the GET was sent again although RetryLevel=0", j, f), w)
 				continue
 			}
-			r.Violation("resend:non-get-or-body-request-replayed:"+c.Shape+":"+f,
+			r.Violation("resend:non-get-or-body-request-replayed:"+c.Frontend+":"+c.Shape+":"+f,
 				fmt.Sprintf("attempt %d reached a live backend (fault %s) and the %s request was sent again", j, f, c.Shape), w)
 		}
 		// R3 body never replayed
 		if c.hasBody() && arr > 1 {
-			r.Violation("body-replayed:"+c.Shape, fmt.Sprintf("request with a body arrived %d times at live backends", arr), w)
+			r.Violation("body-replayed:"+c.Frontend+":"+c.Shape, fmt.Sprintf("request with a body arrived %d times at live backends", arr), w)
 		}
 		// R4 cross attempts
 		prim := at[0].Sub
